@@ -10,6 +10,7 @@ import (
 	"io"
 	"os"
 	"sort"
+	"strconv"
 	"strings"
 )
 
@@ -251,4 +252,54 @@ func WriteFails(path string, fails []Fail) error {
 		}
 	}
 	return nil
+}
+
+// GenBytes is the deterministic content generator shared with the Lean driver
+// (Driver.genBytes): byte i is the low byte of the i-th splitmix64 output of NewRand(seed)'s
+// state; with period > 0 the content repeats with that period.
+func GenBytes(seed uint64, n int, period int) []byte {
+	m := n
+	if period > 0 && period < n {
+		m = period
+	}
+	r := &Rand{s: seed*0x9E3779B97F4A7C15 + 0x1234567}
+	base := make([]byte, m)
+	for i := range base {
+		base[i] = byte(r.U64())
+	}
+	if m == n {
+		return base
+	}
+	out := make([]byte, n)
+	for i := range out {
+		out[i] = base[i%m]
+	}
+	return out
+}
+
+// ParseSrc decodes a data-source token shared with the Lean driver (Driver.parseSrc):
+// h:<hex> | g:<seed>:<n> | p:<seed>:<n>:<period>.
+func ParseSrc(s string) ([]byte, bool) {
+	f := strings.Split(s, ":")
+	switch {
+	case len(f) == 2 && f[0] == "h":
+		b, err := UnHex(f[1])
+		return b, err == nil
+	case len(f) == 3 && f[0] == "g":
+		a, e1 := strconv.ParseUint(f[1], 10, 64)
+		n, e2 := strconv.Atoi(f[2])
+		if e1 != nil || e2 != nil || n < 0 {
+			return nil, false
+		}
+		return GenBytes(a, n, 0), true
+	case len(f) == 4 && f[0] == "p":
+		a, e1 := strconv.ParseUint(f[1], 10, 64)
+		n, e2 := strconv.Atoi(f[2])
+		p, e3 := strconv.Atoi(f[3])
+		if e1 != nil || e2 != nil || e3 != nil || n < 0 || p < 0 {
+			return nil, false
+		}
+		return GenBytes(a, n, p), true
+	}
+	return nil, false
 }
